@@ -2,11 +2,8 @@
 
     Part 1  operations commute with the abstraction [abs] (whatever the undo log and the fork mode of the State object).
     Part 2  the ten interface facts, from the C01 lemmas ([get_props], [get_is_scratch], [Inv_set], [scratch_ext], ...).
-    Part 3  every State object of every reachable store is a consistent cache ([Reach] -> [Cache]); needs the new invariant
-            [Fixed] (hyper-parameters stay where [State.__init__] put them), proved here for every operation.
-    Part 4  an API run is a run of the State model: every API event is executed by the State operations [ops_of_event]
-            and the stores stay related by [Rep]; so the stores met by API runs started from a reachable store are
-            reachable stores. *)
+    (Parts 3-4 — reachable State objects are consistent caches; an API run is a run of the State model — are in
+    Compose/StateApiRunProofs.v.) *)
 From Coq Require Import List Arith Bool Lia.
 From Leaspy Require Import State.StateModel State.StateProofs State.StateNow State.StateNowProofs
                            Api.ApiModel Api.ApiProofs Compose.StateApi.
